@@ -96,9 +96,12 @@ CHECKS = {
                     thorough=dict(shards=16, checks=2500, timeout=1800)),
                dict(pkg="table", run="^TestC08Pinned$",
                     quick=dict(shards=1, checks=1, timeout=120),
-                    thorough=dict(shards=1, checks=1, timeout=120))],
-        rule="cases = histories engineered for awkward continuations (short stacks, heads-up busts with bystanders, everybody but one busting, arrivals during the hand and while the gate is armed, settlement-finish signals from every subset/order of the expected players incl. none and from non-expected players, breaks); the harness issues nothing but the drawn signals between settlement and the next open; oracle: pause iff break or fewer players with chips than the minimum, otherwise gate armed by the engine and the next hand opens (at once or after the 2 s timeout) and is played out; non-trivial = a continuation whose participants differ from the previous hand's, a partial signal set, or a pause; distinct = distinct abstract traces",
-        mandatory=dict(quick=['signals_none', 'signals_some', 'signals_all', 'signals_extra', 'pause_min_players', 'pause_break', 'participants_changed', 'arrival_during_gate', 'all_but_one_bust']),
+                    thorough=dict(shards=1, checks=1, timeout=120)),
+               dict(pkg="table", run="^TestC08Interval$",
+                    quick=dict(shards=7, checks=5, timeout=300),
+                    thorough=dict(shards=16, checks=40, timeout=1500))],
+        rule="interval part (c08i): the same histories (2-5 hands) with a real 1 s continue delay; a drawn operation lands 0-0.6 s into it - a busted player buys chips (re-buy / add-on), a break starts, a break set during the hand ends, somebody arrives - and pause-iff is judged on what is true when the interval elapses, only for hands whose operation returned < 0.9 s after the settlement was published (others excluded and counted); cases = histories engineered for awkward continuations (short stacks, heads-up busts with bystanders, everybody but one busting, arrivals during the hand and while the gate is armed, settlement-finish signals from every subset/order of the expected players incl. none and from non-expected players, breaks); the harness issues nothing but the drawn signals between settlement and the next open; oracle: pause iff break or fewer players with chips than the minimum, otherwise gate armed by the engine and the next hand opens (at once or after the 2 s timeout) and is played out; non-trivial = a continuation whose participants differ from the previous hand's, a partial signal set, or a pause; distinct = distinct abstract traces",
+        mandatory=dict(quick=['delay_busted_player_buys_chips', 'delay_break_starts', 'signals_none', 'signals_some', 'signals_all', 'signals_extra', 'pause_min_players', 'pause_break', 'participants_changed', 'arrival_during_gate', 'all_but_one_bust']),
         assumptions=ASSUME_COMMON,
     ),
     "C10": dict(
